@@ -88,7 +88,7 @@ PROPS = {
     'C13': {
         'streams': [S('C13', 720, 20000)],
         'explanation': 'theorems: Is / As clauses of multi-cause nodes, leaves for Unwrap, stdlib join text, library join text through the formatting engine (C13_join_text), wire shape, opaque branches. Correspondence: shape, Is, As, %+v, hops knowing and unknowing; Go relation: branch disjunction, first match in order, nil dropping, transfer keeps branches',
-        'not_yet_proved': ['text of the library join for branches with multi-line or non-ASCII texts (C13_join_text covers one-line plain branches; the rest is decided by the correspondence)'],
+        'not_yet_proved': ['C13_join_text_blank_refuted: for a branch whose text is empty, ends in a newline or holds a blank line the clause is false (recorded finding join-blank-line-branch, shown on the code by the Go relation on 32 directed joins); text of the library join for branches with multi-line or non-ASCII texts (C13_join_text covers one-line plain branches; the rest is decided by the correspondence)'],
         'assumptions': [ASSUME_UNIVERSE],
     },
     'C14': {
